@@ -34,7 +34,7 @@ def strat(tier):
         "resid_seed": st.integers(0, 2 ** 31 - 1), "resid_amp": st.sampled_from([0.0, 0.01, 0.1]),
         "mode": st.sampled_from(["inside", "inside", "on_bound", "outside", "negative_radius", "overlap"]),
         "shift": st.lists(st.floats(-1, 1), min_size=8, max_size=8),
-        "constraint": st.one_of(st.none(), st.floats(0.0, 1.0)),
+        "constraint": st.one_of(st.none(), st.floats(0.0, 1.0), st.sampled_from([0.0, 0.1, 1.0])),
         "pixels": st.one_of(st.none(), st.floats(0.05, 1.0)), "pix_seed": st.integers(0, 2 ** 31 - 1),
         "subset_data": st.booleans(), "minus": st.booleans(),
     })
@@ -228,11 +228,16 @@ def run(case):
     violates = False
     if cons and not invalid:
         dist = math.sqrt((x1 - (cx + t["sep"])) ** 2 + (z1 - t["z"]) ** 2)
-        largest = max(0.0, r1 + r2 - dist)
+        raw = r1 + r2 - dist
+        largest = max(0.0, raw)
         allowed = 2 * min(r1, r2) * case["constraint"]
-        if abs(largest - allowed) < 1e-9:
+        # abstain only where rounding of the distance could decide; clearly separated spheres have overlap
+        # exactly 0, which is within any allowance >= 0 (including fraction = 0: "no overlap allowed")
+        if abs(raw - allowed) < 1e-9:
             return Outcome(None, False, labels + ["constraint_boundary_abstain"], skipped=True)
         violates = largest > allowed
+        if raw < 0 and allowed == 0:
+            labels.append("zero_allowance_separated")
     if invalid or violates:
         ref_prior = -math.inf
     cause = "invalid_scatterer" if invalid else ("constraint" if violates else ("outside_support" if ref_prior == -math.inf else "finite"))
